@@ -289,6 +289,18 @@ func runS3Hist(args []string) {
 	ctx := context.Background()
 
 	directed := s3hDirected()
+	// one multi-part "parts" history per stack of the rotation (compressible bodies above the
+	// compression threshold, appends, multipart, server-side part copies with tail ranges)
+	rotation := []string{*stack}
+	if *stack == "all" {
+		rotation = S3hStackNames
+	} else if strings.Contains(*stack, ",") {
+		rotation = strings.Split(*stack, ",")
+	}
+	nPlain := len(directed)
+	for range rotation {
+		directed = append(directed, s3hPartsHistory())
+	}
 	total := len(directed) + f.Cases
 	for k := 0; k < total; k++ {
 		if !f.Wants(k) {
@@ -302,6 +314,9 @@ func runS3Hist(args []string) {
 		} else if strings.Contains(sname, ",") {
 			names := strings.Split(sname, ",")
 			sname = names[k%len(names)]
+		}
+		if k >= nPlain && k < len(directed) { // the parts history of stack number k-nPlain
+			sname = rotation[k-nPlain]
 		}
 		stk := newS3hStack(dir, sname)
 		c := &s3hCase{ctx: ctx, st: stk.Storage, out: out, vids: map[string]int{}, bnams: []string{"b0", "b1"},
@@ -319,7 +334,7 @@ func runS3Hist(args []string) {
 					c.exec(line)
 				}
 			} else {
-				g := &s3hGen{r: verifx.NewRng(seed), c: c, mode: *mode}
+				g := &s3hGen{r: verifx.NewRng(seed), c: c, mode: *mode, withPartCopy: true}
 				for i := 0; i < *nops; i++ {
 					c.exec(g.next())
 				}
@@ -548,6 +563,20 @@ func (c *s3hCase) exec(line string) {
 		}
 	case "upp":
 		res, err := st.UploadPart(ctx, B(2), K(3), c.uid(t[4]), atoi32(t[5]), bytes.NewReader(unhexTok(t[6])), nil)
+		if err != nil {
+			c.resErr(err)
+		} else {
+			c.out.Line("res ok etag=%s", res.ETag)
+		}
+	case "uppc":
+		// op uppc <sb> <sk> <db> <dk> <u> <n> range=<a>-<b>|~     (b exclusive)
+		var o *storage.UploadPartCopyOptions
+		if r := a["range"]; r != "~" && r != "" {
+			var s, e int64
+			fmt.Sscanf(r, "%d-%d", &s, &e)
+			o = &storage.UploadPartCopyOptions{Range: &storage.ByteRange{Start: &s, End: &e}}
+		}
+		res, err := st.UploadPartCopy(ctx, B(2), K(3), B(4), K(5), c.uid(t[6]), atoi32(t[7]), o)
 		if err != nil {
 			c.resErr(err)
 		} else {
